@@ -277,6 +277,30 @@ def run_impl(driver, case):
                     break
         except Exception as ex:
             out["viewinplace"] = "raises %s" % type(ex).__name__
+    # matrix product with a BATCHED matrix (leading axes the masked tensor does not have): masked (3, 4) x plain (2, 4, 5) - the
+    # framework broadcasts the values to (2, 3, 5); the validity has that shape too, each row valid iff all of its 4 entries are.
+    # Once per process and framework.
+    if not getattr(driver, "_batched_matmul_done", False):
+        driver._batched_matmul_done = True
+        try:
+            vals = np.arange(12, dtype=np.float64).reshape(3, 4) + 1.0
+            msk = np.array([[1, 1, 1, 1], [1, 0, 1, 1], [1, 1, 1, 1]], dtype=bool)
+            mat = (np.arange(40, dtype=np.float64).reshape(2, 4, 5) - 7.0)
+            if getattr(driver, "name", "") == "torch":
+                x = driver.MT(driver.torch.from_numpy(vals), driver.torch.from_numpy(msk))
+                r = x.matmul(driver.torch.from_numpy(mat))
+                vs, ms, mv = tuple(r.tensor.shape), tuple(r.mask.shape), np.asarray(r.mask)
+            else:
+                x = driver.MT(driver.tf.constant(vals), driver.tf.constant(msk))
+                r = x.matmul(driver.tf.constant(mat))
+                vs, ms, mv = tuple(r.tensor.shape), tuple(r.mask.shape), r.mask.numpy()
+            want = np.broadcast_to(np.array([True, False, True])[None, :, None], (2, 3, 5))
+            if vs != (2, 3, 5) or ms != (2, 3, 5) or not np.array_equal(np.asarray(mv, dtype=bool), want):
+                driver._batched_matmul = "value shape %s, validity shape %s%s" % (vs, ms, "" if ms != (2, 3, 5) else ", validity pattern wrong")
+        except Exception as ex:
+            driver._batched_matmul = None        # a framework that refuses the operand shapes is not at fault here
+    if getattr(driver, "_batched_matmul", None):
+        out["batchedmatmul"] = driver._batched_matmul      # reported with every case of the run (whichever the oracle looks at first)
     # TensorFlow in GRAPH mode (tf.function with an axis whose extent is unknown when the function is traced - a dataset pipeline):
     # masked (1, 3) <op> plain (5, 3) broadcasts values AND validity to (5, 3); what the static shapes say at trace time
     # ([None, 3] on both sides) decides nothing.  Run once per process.
@@ -298,9 +322,11 @@ def run_impl(driver, case):
                 if tuple(rt.shape) != (5, 3) or tuple(rm.shape) != (5, 3) or not np.array_equal(rm.numpy(), np.tile([[True, False, True]], (5, 1))):
                     bad = "%s: value shape %s, validity shape %s" % (opname, tuple(rt.shape), tuple(rm.shape))
                     break
-            out["graphshape"] = bad
+            driver._graphshape = bad
         except Exception as ex:
-            out["graphshape"] = "raises %s" % type(ex).__name__
+            driver._graphshape = "raises %s" % type(ex).__name__
+    if getattr(driver, "_graphshape", None):
+        out["graphshape"] = driver._graphshape
     # TensorFlow statistics in float32 on data whose mean is hundreds of times its spread (pixel coordinates): variance and
     # standard deviation of the valid elements, against a binary64 two-pass reference (a textbook-correct but cancellation-prone
     # formula is off by percents here, float32 rounding of a sound one by 1e-4 at most)
